@@ -291,3 +291,202 @@ Proof.
 Qed.
 
 End Build.
+
+(** C03, payload clause: under fail a declared payload digest that disagrees with the payload is
+    the error (after the length and the block digest have been found in order) *)
+Section PayloadFail.
+Variable tbl : list fielddef.
+Variable uni_lower : bytes -> bytes.
+Variable H : alg -> bytes -> bytes.
+Variables b32_decode b64_decode : bytes -> option bytes.
+Notation validate_digest := (validate_digest tbl uni_lower H b32_decode b64_decode).
+Notation m_has := (m_has tbl uni_lower).
+Notation disagrees := (disagrees H b32_decode b64_decode).
+Notation length_defect := (length_defect tbl uni_lower).
+
+Theorem validate_digest_fail_payload o rt hs b bd pd cached fnd p :
+  o_spec o = Fail -> o_add_digest o = false ->
+  length_defect hs b = false -> disagrees bd = false ->
+  (rt =? 32) = false -> m_has n_segment_number hs = false ->
+  payload_obj rt b pd = Some p -> disagrees p = true ->
+  validate_digest o rt hs b bd pd cached fnd = Err (KDigest, n_payload_digest) fnd.
+Proof.
+  intros HS HA HL HB Hrt Hseg Hp HD. unfold Record.validate_digest. unfold RecordProofs.length_defect in HL.
+  rewrite <- andb_assoc, HL, andb_false_r. cbv zeta.
+  unfold Record.check_digest at 1. rewrite HA, HS. cbn [andb policy_gt_ignore].
+  unfold RecordProofs.disagrees, declared in HB, HD.
+  assert (Hk : (if (rt =? 32) || m_has n_segment_number hs then Ok hs fnd
+                else match payload_obj rt b pd with
+                     | None => Ok hs fnd
+                     | Some p0 => check_digest tbl uni_lower H b32_decode b64_decode o n_payload_digest p0 cached hs fnd (fun hs3 _ fnd3 => Ok hs3 fnd3)
+                     end) = Err (KDigest, n_payload_digest) fnd).
+  { rewrite Hrt, Hseg, Hp. cbn [orb]. unfold Record.check_digest. rewrite HS.
+    destruct (d_hash p); [discriminate|]. cbn [andb policy_gt_ignore] in *. rewrite HD. reflexivity. }
+  unfold payload_obj in Hk.
+  destruct (d_hash bd); [exact Hk|]. cbn [andb] in HB. rewrite HB. cbn [negb]. exact Hk.
+Qed.
+
+End PayloadFail.
+
+(** * C07, block clause: a record returned clean and without findings under a spec policy above
+    ignore carries a block of exactly the declared length - the block is never silently
+    shortened (or lengthened) *)
+Require Import Proofs.PolicyProofs.
+Section DeclaredLength.
+Variable uni_lower uni_upper : bytes -> bytes.
+Variables time_ok ip_ok uri_ok wid_ok : bytes -> bool.
+Variable mime_dec : bytes -> option bytes.
+Variable H : alg -> bytes -> bytes.
+Variables b32_decode b64_decode : bytes -> option bytes.
+Variables http_req_ok http_resp_ok : bytes -> bool.
+Notation tbl := field_table.
+Notation req := required_fields.
+Notation key := (normalize_name tbl uni_lower).
+Notation m_get := (m_get tbl uni_lower).
+Notation m_set := (m_set tbl uni_lower).
+Notation m_has := (m_has tbl uni_lower).
+Notation validate_digest := (validate_digest tbl uni_lower H b32_decode b64_decode).
+Notation check_digest := (check_digest tbl uni_lower H b32_decode b64_decode).
+Notation length_defect := (length_defect tbl uni_lower).
+Notation parse_record := (parse_record tbl req uni_lower uni_upper time_ok ip_ok uri_ok wid_ok mime_dec H b32_decode b64_decode http_req_ok http_resp_ok).
+
+Lemma app_eq_self {A} (a r : list A) : a ++ r = a -> r = [].
+Proof. intros E. apply (f_equal (@length A)) in E. rewrite app_length in E. destruct r; [reflexivity|cbn in E; lia]. Qed.
+
+Lemma vd_same_findings_no_length_defect o rt hs b bd pd cached fnd hs' :
+  policy_gt_ignore (o_spec o) = true ->
+  validate_digest o rt hs b bd pd cached fnd = Ok hs' fnd -> length_defect hs b = false.
+Proof.
+  intros Hgt Hv. destruct (length_defect hs b) eqn:EL; [|reflexivity]. exfalso.
+  destruct (o_spec o) eqn:ES; [discriminate| |].
+  - destruct (validate_digest_warn_reports tbl uni_lower H b32_decode b64_decode o rt hs b bd pd cached fnd ES)
+      as (h2 & f2 & Hv2 & Hl & _).
+    rewrite Hv in Hv2. inversion Hv2; subst. destruct (Hl EL) as [r Hr].
+    symmetry in Hr. apply app_eq_self in Hr. discriminate.
+  - rewrite (validate_digest_fail_length tbl uni_lower H b32_decode b64_decode o rt hs b bd pd cached fnd ES EL) in Hv.
+    discriminate.
+Qed.
+
+(* check_digest writes digest fields only *)
+Lemma check_digest_keeps o field d cached hs fnd k hs' fnd' (n : bytes) :
+  key n <> key field ->
+  (forall hs1 d1 f1, m_get n hs1 = m_get n hs -> m_has n hs1 = m_has n hs ->
+      k hs1 d1 f1 = Ok hs' fnd' -> m_get n hs' = m_get n hs /\ m_has n hs' = m_has n hs) ->
+  check_digest o field d cached hs fnd k = Ok hs' fnd' ->
+  m_get n hs' = m_get n hs /\ m_has n hs' = m_has n hs.
+Proof.
+  intros Hk Hcont. unfold Record.check_digest.
+  assert (Hset : forall v, m_get n (m_set field v hs) = m_get n hs /\ m_has n (m_set field v hs) = m_has n hs).
+  { intros v. split; [apply get_set_other; exact Hk|apply has_set_other; exact Hk]. }
+  destruct (d_hash d).
+  - destruct (_ && _); [apply Hcont; apply Hset|apply Hcont; reflexivity].
+  - destruct (_ && _); [|apply Hcont; reflexivity].
+    destruct (o_spec o); try (intros; discriminate); [apply Hcont; reflexivity|].
+    destruct (o_fix_digest o); [apply Hcont; apply Hset|apply Hcont; reflexivity].
+Qed.
+
+Lemma vd_keeps_length_field o rt hs b bd pd cached fnd hs' fnd' :
+  length_defect hs b = false ->
+  validate_digest o rt hs b bd pd cached fnd = Ok hs' fnd' ->
+  m_get n_content_length hs' = m_get n_content_length hs /\ m_has n_content_length hs' = m_has n_content_length hs.
+Proof.
+  intros HL. destruct (keys_distinct uni_lower) as (K1 & K2 & _).
+  unfold Record.validate_digest. cbv zeta. unfold RecordProofs.length_defect in HL.
+  rewrite <- andb_assoc, HL, andb_false_r.
+  apply check_digest_keeps; [exact K1|].
+  intros hs1 d1 f1 Hg1 Hh1.
+  destruct (_ || _); [intros HH; inversion HH; subst; split; assumption|].
+  destruct (match bk b with BGeneric => _ | _ => _ end) as [p|].
+  - intros Hc. rewrite <- Hg1, <- Hh1. revert Hc. apply check_digest_keeps; [exact K2|].
+    intros hs2 d2 f2 Hg2 Hh2 HH. inversion HH; subst. split; assumption.
+  - intros HH; inversion HH; subst; split; assumption.
+Qed.
+
+Lemma block_tail o vt vid rt hs1 content s3 fnd4 r s' :
+  policy_gt_ignore (o_spec o) = true ->
+  match Record.parse_block tbl uni_lower uni_upper mime_dec http_req_ok http_resp_ok o rt hs1 content fnd4 with
+  | Ok (hs2, blk, bd, pd) fnd5 =>
+      match validate_digest o rt hs2 blk bd pd (match bk blk with BWarcFields | BRevisit => true | _ => false end) fnd5 with
+      | Ok hs3 fnd6 =>
+          match trailer o s3 fnd6 with
+          | Ok s4 fnd7 => URec (mkrec vt vid rt hs3 blk) None fnd7 s4
+          | Err e7 fnd7 => URec (mkrec vt vid rt hs3 blk) (Some e7) fnd7 s3
+          end
+      | Err e6 fnd6 => URec (mkrec vt vid rt hs2 blk) (Some e6) fnd6 s3
+      end
+  | Err e5 fnd5 => URec (mkrec vt vid rt hs1 (mkblk BGeneric [] content)) (Some e5) fnd5 s3
+  end = URec r None [] s' ->
+  m_has n_content_length (r_fields r) = true ->
+  m_get n_content_length (r_fields r) = itoa (Z.of_nat (length (raw_bytes (r_block r)))).
+Proof.
+  intros Hgt Hs' Hhas.
+  destruct (Record.parse_block _ _ _ _ _ _ _ _ _ _ _) as [[[[hs2 blk] bd] pd] fnd5|e5 fnd5]; [|discriminate].
+  destruct (validate_digest o rt hs2 blk bd pd _ fnd5) as [hs3 fnd6|e6 fnd6] eqn:Ev; [|discriminate].
+  destruct (trailer o s3 fnd6) as [s4 fnd7|e7 fnd7] eqn:Et; [|discriminate].
+  inversion Hs'; subst. cbn [r_fields r_block] in *.
+  (* the marker check and the digest check added nothing *)
+  assert (H6 : fnd6 = []).
+  { unfold trailer in Et. destruct (peek 4 s3) as [buf ee]. destruct (bytes_eqb buf CRLFCRLF); [inversion Et; reflexivity|].
+    destruct (o_spec o); cbn [site] in Et; try discriminate; inversion Et as [[E1 E2]]; try reflexivity.
+    all: destruct fnd6; discriminate. }
+  subst fnd6.
+  assert (H5 : fnd5 = []).
+  { destruct (o_spec o) eqn:ES; [discriminate| |].
+    - revert Ev. unfold Record.validate_digest, Record.check_digest. rewrite ES. cbn [policy_gt_ignore andb orb].
+      repeat match goal with
+             | |- context [match ?x with _ => _ end] =>
+                 match type of x with
+                 | bytes => destruct x eqn:?
+                 | bool => destruct x eqn:?
+                 | bkind => destruct x eqn:?
+                 | option digest => destruct x eqn:?
+                 end
+             end; intros HH; inversion HH as [[E1 E2]];
+        repeat match goal with E : _ ++ _ = [] |- _ => apply app_eq_nil in E; destruct E end; subst; try reflexivity; try discriminate.
+    - pose proof (validate_digest_quiet tbl uni_lower H b32_decode b64_decode o rt hs2 blk bd pd
+                    (match bk blk with BWarcFields | BRevisit => true | _ => false end) fnd5) as Hq.
+      assert (Hne : o_spec o <> Warn) by congruence. specialize (Hq Hne). rewrite Ev in Hq. cbn in Hq. congruence. }
+  subst fnd5.
+  pose proof (vd_same_findings_no_length_defect _ _ _ _ _ _ _ _ _ Hgt Ev) as HL.
+  destruct (vd_keeps_length_field _ _ _ _ _ _ _ _ _ _ HL Ev) as [Hg Hh].
+  rewrite Hg. rewrite Hh in Hhas. unfold RecordProofs.length_defect in HL. rewrite Hhas in HL. cbn [andb] in HL.
+  apply negb_false_iff in HL. apply bytes_eqb_eq in HL. symmetry. exact HL.
+Qed.
+
+Theorem clean_record_has_declared_length o s r s' :
+  policy_gt_ignore (o_spec o) = true ->
+  parse_record o s [] = URec r None [] s' ->
+  m_has n_content_length (r_fields r) = true ->
+  m_get n_content_length (r_fields r) = itoa (Z.of_nat (length (raw_bytes (r_block r)))).
+Proof.
+  intros Hgt Hp Hhas. rewrite parse_record_stages in Hp.
+  destruct (read_bytes LF (discard 5 s)) as [[l e] s1].
+  destruct e as [[|]|]; try discriminate.
+  assert (Hblock : forall vt vid rt hs1 s2 fnd4,
+            stage_block tbl uni_lower uni_upper mime_dec H b32_decode b64_decode http_req_ok http_resp_ok o vt vid rt hs1 s2 fnd4
+            = URec r None [] s' ->
+            m_get n_content_length (r_fields r) = itoa (Z.of_nat (length (raw_bytes (r_block r))))).
+  { intros vt vid rt hs1 s2 fnd4. unfold stage_block. cbv zeta. intros Hs.
+    destruct (stail s2).
+    - eapply block_tail; [exact Hgt|exact Hs|exact Hhas].
+    - destruct ((cl_value tbl uni_lower hs1 <? 0)%Z || (Z.of_nat (length (sdata s2)) <? cl_value tbl uni_lower hs1)%Z)%bool; [discriminate|].
+      eapply block_tail; [exact Hgt|exact Hs|exact Hhas]. }
+  assert (Hfields : forall vt vid fnd2,
+            stage_fields tbl req uni_lower uni_upper time_ok ip_ok uri_ok wid_ok mime_dec H b32_decode b64_decode http_req_ok http_resp_ok o vt vid s1 fnd2
+            = URec r None [] s' ->
+            m_get n_content_length (r_fields r) = itoa (Z.of_nat (length (raw_bytes (r_block r))))).
+  { intros vt vid fnd2. unfold stage_fields.
+    destruct (HeaderParse.parse_fields _ _ _ _ _ _) as [[hs s2] fnd3|e2 fnd3]; [|discriminate].
+    destruct (Validate.validate_header _ _ _ _ _ _ _ _ _ _ _ _) as [[rt hs1] fnd4|e3 fnd4]; [|discriminate].
+    apply Hblock. }
+  assert (Hver : forall fnd1,
+            stage_ver tbl req uni_lower uni_upper time_ok ip_ok uri_ok wid_ok mime_dec H b32_decode b64_decode http_req_ok http_resp_ok o l s1 fnd1
+            = URec r None [] s' ->
+            m_get n_content_length (r_fields r) = itoa (Z.of_nat (length (raw_bytes (r_block r))))).
+  { intros fnd1. unfold stage_ver. cbv zeta. destruct (_ =? 0); [|apply Hfields].
+    destruct (o_spec o); [apply Hfields|apply Hfields|discriminate]. }
+  destruct (_ || _)%bool; [|eapply Hver; exact Hp].
+  destruct (o_syntax o); [eapply Hver; exact Hp|eapply Hver; exact Hp|discriminate].
+Qed.
+
+End DeclaredLength.
